@@ -31,12 +31,12 @@ Proof. intros Hb. rewrite Z.sub_1_r, <- Z.ones_equiv, Z.land_ones by lia. reflex
 
 (* ---- Image::create ---- *)
 Lemma src_img_term_length_mask_eq m tl : in_i32 (tl - 1) = true -> src_img_term_length_mask m tl = Ok (tl - 1).
-Proof. intros H. unfold src_img_term_length_mask, sub32. apply chk32_ok; assumption. Qed.
+Proof. intros H. unfold src_img_term_length_mask. src_robust. Qed.
 
 (* ---- poll ---- *)
 Lemma src_img_poll_term_offset_eq m tl pos :
   src_img_poll_term_offset m (tl - 1) pos = Ok (term_offset_of_pos tl pos).
-Proof. reflexivity. Qed.
+Proof. unfold src_img_poll_term_offset, term_offset_of_pos. first [ reflexivity | rewrite Z.land_comm; reflexivity | src_robust ]. Qed.
 
 Lemma src_img_poll_index_eq m pos bits : 0 <= bits < 64 ->
   src_img_poll_index m bits pos = Ok (index_by_position pos bits).
@@ -45,17 +45,17 @@ Proof. intros H. unfold src_img_poll_index. apply src_index_by_position_eq; assu
 (* position + (read_outcome.offset - term_offset) as i64 *)
 Lemma src_img_poll_new_position_eq m pos o off : in_i32 (o - off) = true -> in_i64 (pos + (o - off)) = true ->
   src_img_poll_new_position m o pos off = Ok (pos + (o - off)).
-Proof. intros H1 H2. unfold src_img_poll_new_position. srcT_auto. Qed.
+Proof. intros H1 H2. unfold src_img_poll_new_position. src_robust. Qed.
 
 Lemma src_img_poll_advances_eq m np pos : src_img_poll_advances m np pos = Ok (np >? pos).
-Proof. reflexivity. Qed.
+Proof. unfold src_img_poll_advances. src_robust. Qed.
 
 (* ---- bounded_poll ---- *)
 (* (position & mask as i64) as i32 is the same term offset as (position as i32) & mask *)
 Lemma src_img_bounded_initial_offset_eq m bits pos : 0 <= bits <= 31 ->
   src_img_bounded_initial_offset m (2 ^ bits - 1) pos = Ok (term_offset_of_pos (2 ^ bits) pos).
-Proof. intros Hb. unfold src_img_bounded_initial_offset, term_offset_of_pos. f_equal.
-  rewrite land_wrap32_mask by lia. rewrite land_mask_pow2 by lia. apply wrap32_id.
+Proof. intros Hb. unfold src_img_bounded_initial_offset, term_offset_of_pos. cbv zeta. f_equal.
+  rewrite ?(Z.land_comm (2 ^ bits - 1)). rewrite land_wrap32_mask by lia. rewrite land_mask_pow2 by lia. apply wrap32_id.
   pose proof (Z.mod_pos_bound pos (2 ^ bits) ltac:(apply Z.pow_pos_nonneg; lia)).
   assert (2 ^ bits <= 2 ^ 31) by (apply Z.pow_le_mono_r; lia). change (2 ^ 31) with 2147483648 in *.
   unfold in_i32, two31. lia. Qed.
@@ -65,13 +65,13 @@ Proof. reflexivity. Qed.
 
 Lemma src_img_bounded_limit_offset_eq m cap bound pos off : 0 <= cap ->
   src_img_bounded_limit_offset m bound pos off cap = Ok (limit_offset cap bound pos off).
-Proof. intros Hc. unfold src_img_bounded_limit_offset, limit_offset. rewrite !satT_sat64.
-  rewrite clampT_ok by assumption. reflexivity. Qed.
+Proof. intros Hc. unfold src_img_bounded_limit_offset, limit_offset. cbv zeta. rewrite !satT_sat64.
+  rewrite clampT_ok by assumption. cbn [bind]. first [ reflexivity | f_equal; f_equal; f_equal; f_equal; f_equal; f_equal; lia ]. Qed.
 
 Lemma src_img_bounded_loop_eq m n limit off lo len :
   src_img_bounded_continue m n limit off lo = Ok ((n <? limit) && (off <? lo)) /\
   src_img_bounded_stop m len = Ok (len <=? 0).
-Proof. split; reflexivity. Qed.
+Proof. unfold src_img_bounded_continue, src_img_bounded_stop. split; src_robust. Qed.
 
 (* the aligned length of a frame is the model's span *)
 Lemma align32_span m len : 0 <= len -> in_i32 (len + 31) = true -> align32 m len = Ok (align len 32).
@@ -85,20 +85,19 @@ Proof. intros H0 H. unfold src_img_bounded_aligned_length. rewrite src_align_fra
   rewrite align32_span by assumption. reflexivity. Qed.
 
 Lemma src_img_bounded_advance_eq m off sp : in_i32 (off + sp) = true -> src_img_bounded_advance m off sp = Ok (off + sp).
-Proof. intros H. unfold src_img_bounded_advance, add32. apply chk32_ok; assumption. Qed.
+Proof. intros H. unfold src_img_bounded_advance. src_robust. Qed.
 
 (* what the handler is given: payload offset and payload length (Image.handler_args) *)
 Lemma src_img_bounded_data_eq m o len : in_i32 (o + HDR) = true -> in_i32 (len - HDR) = true ->
   src_img_bounded_data_offset m o = Ok (o + HDR) /\ src_img_bounded_data_length m len = Ok (len - HDR).
-Proof. intros H1 H2. unfold src_img_bounded_data_offset, src_img_bounded_data_length, add32, sub32.
-  change GenConsts.DFH_LENGTH with HDR. rewrite !chk32_ok by assumption. split; reflexivity. Qed.
+Proof. intros H1 H2. unfold src_img_bounded_data_offset, src_img_bounded_data_length. iconsts. split; src_robust. Qed.
 
 Lemma src_img_bounded_resulting_position_eq m pos o off : in_i32 (o - off) = true -> in_i64 (pos + (o - off)) = true ->
   src_img_bounded_resulting_position m pos o off = Ok (pos + (o - off)).
-Proof. intros H1 H2. unfold src_img_bounded_resulting_position. srcT_auto. Qed.
+Proof. intros H1 H2. unfold src_img_bounded_resulting_position. src_robust. Qed.
 
 Lemma src_img_bounded_advances_eq m rp pos : src_img_bounded_advances m rp pos = Ok (rp >? pos).
-Proof. reflexivity. Qed.
+Proof. unfold src_img_bounded_advances. src_robust. Qed.
 
 (* ---- validate_position ---- *)
 Theorem src_img_validate_position_eq m bits tl cur newp :
@@ -110,44 +109,42 @@ Proof. intros Hb Htl Hc0 Hlim. unfold src_img_validate_position, validate_positi
   { subst tl. split; [change 1 with (2 ^ 0)|change 1073741824 with (2 ^ 30)]; apply Z.pow_le_mono_r; lia. }
   assert (L : 0 <= Z.land cur (tl - 1) <= tl - 1).
   { subst tl. rewrite land_mask_pow2 by lia. pose proof (Z.mod_pos_bound cur (2 ^ bits) ltac:(lia)). lia. }
-  unfold sub64, add64, sub32.
-  rewrite (chk64_ok m (cur - Z.land cur (tl - 1))) by (unfold in_i64, two63 in *; lia). cbn [bind].
-  rewrite (chk64_ok m (cur - Z.land cur (tl - 1) + (tl - 1))) by (unfold in_i64, two63 in *; lia). cbn [bind].
-  rewrite (chk64_ok m (cur - Z.land cur (tl - 1) + (tl - 1) + 1)) by (unfold in_i64, two63 in *; lia). cbn [bind].
-  destruct ((newp <? cur) || (newp >? cur - Z.land cur (tl - 1) + (tl - 1) + 1)) eqn:E1.
-  - eexists. split; [reflexivity|]. cbn [negb andb]. split; [intros (v & Hv); discriminate|discriminate].
-  - iconsts. rewrite chk32_ok by reflexivity. cbn [bind negb andb].
-    rewrite (Z.eqb_sym 0). destruct (Z.land newp (32 - 1) =? 0) eqn:E2; cbn [negb].
-    + eexists. split; [reflexivity|]. split; [reflexivity|]. intros _. eexists; reflexivity.
-    + eexists. split; [reflexivity|]. split; [intros (v & Hv); discriminate|discriminate]. Qed.
+  rewrite ?(Z.land_comm (tl - 1) cur). set (lo := Z.land cur (tl - 1)) in *.
+  iconsts. rewrite ?(Z.land_comm (32 - 1) newp). change (32 - 1) with 31. set (al := Z.land newp 31).
+  srcT_unfold_ops. cbn [bind]. cmp_norm.
+  repeat (rewrite chk64_ok by src_lia; cbn [bind]). repeat (rewrite chk32_ok by src_lia; cbn [bind]).
+  cmp_norm. change (32 - 1) with 31. rewrite ?(Z.land_comm 31 newp), ?(Z.eqb_sym 0 (Z.land newp 31)). fold al.
+  if_split; cbn [negb andb orb bind] in *; eexists; (split; [reflexivity|]);
+    (split; [ intros (v & Hv) | intros Hv ]);
+    destruct (al =? 0) eqn:A; cbn [negb] in *;
+    first [ discriminate | reflexivity | eexists; reflexivity ]. Qed.
 
 (* ---- Subscription::poll_inner: which image is polled first, and the shared fragment budget ---- *)
 Theorem src_sub_rotation_eq m len rr : 0 <= rr -> in_i32 (rr + 1) = true ->
   (s <- src_sub_starting_index m rr ;; n <- src_sub_next_round_robin m rr ;; w <- src_sub_wraps m len s ;;
    Ok (if w : bool then (0, 0) else (s, n))) = Ok (rr_next len rr).
-Proof. intros H0 H1. unfold src_sub_starting_index, src_sub_next_round_robin, src_sub_wraps, rr_next, add32.
+Proof. intros H0 H1. unfold src_sub_starting_index, src_sub_next_round_robin, src_sub_wraps, rr_next.
   rewrite castT_id by (unfold inT, in_i32, two31 in *; cbn [loT hiT signedT bitsT]; change (2 ^ 64) with 18446744073709551616; lia).
-  rewrite chk32_ok by assumption. cbn [bind]. reflexivity. Qed.
+  src_robust. Qed.
 
 Lemma src_sub_budget_eq m read limit : in_i32 (limit - read) = true ->
   src_sub_has_budget m read limit = Ok (read <? limit) /\ src_sub_budget_left m limit read = Ok (limit - read).
-Proof. intros H. unfold src_sub_has_budget, src_sub_budget_left, sub32. rewrite chk32_ok by assumption. split; reflexivity. Qed.
+Proof. intros H. unfold src_sub_has_budget, src_sub_budget_left. split; src_robust. Qed.
 
 (* ---- term_reader::read (poll) ---- *)
 Lemma src_read_loop_eq m n limit off cap len :
   src_read_continue m n n limit off cap = Ok ((n <? limit) && (off <? cap)) /\
   src_read_stop m len = Ok (len <=? 0).
-Proof. split; reflexivity. Qed.
+Proof. unfold src_read_continue, src_read_stop. split; src_robust. Qed.
 
 Lemma src_read_advance_eq m off f : 0 <= f_len f -> in_i32 (f_len f + 31) = true -> in_i32 (off + span f) = true ->
   src_read_advance m off (f_len f) = Ok (off + span f).
 Proof. intros H0 H1 H2. unfold src_read_advance. rewrite src_align_frame, align32_span by assumption.
-  cbn [bind]. unfold add32. apply chk32_ok. assumption. Qed.
+  cbn [bind]. unfold span, FA, GenConsts.FRAME_ALIGNMENT in *. generalize dependent (align (f_len f) 32); intros sp ?. src_robust. Qed.
 
 Lemma src_read_data_eq m o len : in_i32 (o + HDR) = true -> in_i32 (len - HDR) = true ->
   src_read_data_offset m o = Ok (o + HDR) /\ src_read_data_length m len = Ok (len - HDR).
-Proof. intros H1 H2. unfold src_read_data_offset, src_read_data_length, add32, sub32.
-  change GenConsts.DFH_LENGTH with HDR. rewrite !chk32_ok by assumption. split; reflexivity. Qed.
+Proof. intros H1 H2. unfold src_read_data_offset, src_read_data_length. iconsts. split; src_robust. Qed.
 
 (* ---- term_scan::scan (block_poll) ---- *)
 Lemma src_scan_decisions_eq m off limit len start sp :
@@ -156,9 +153,8 @@ Lemma src_scan_decisions_eq m off limit len start sp :
   src_scan_padding_first m start off = Ok (start =? off) /\
   (in_i32 (off + sp) = true -> src_scan_over_limit m off sp limit = Ok (off + sp >? limit)) /\
   (in_i32 (off + sp) = true -> src_scan_advance m off sp = Ok (off + sp)).
-Proof. repeat split.
-  - intros H. unfold src_scan_over_limit, add32. rewrite chk32_ok by assumption. reflexivity.
-  - intros H. unfold src_scan_advance, add32. apply chk32_ok; assumption. Qed.
+Proof. unfold src_scan_continue, src_scan_stop, src_scan_padding_first, src_scan_over_limit, src_scan_advance.
+  split; [|split; [|split; [|split]]]; try intros H; first [ solve [src_robust] | f_equal; first [ reflexivity | apply Z.eqb_sym ] ]. Qed.
 
 Lemma src_scan_aligned_frame_length_eq m f : 0 <= f_len f -> in_i32 (f_len f + 31) = true ->
   src_scan_aligned_frame_length m (f_len f) = Ok (span f).
@@ -170,28 +166,32 @@ Lemma src_fd_offsets_eq m o :
   src_fd_flags_offset m o = add32 m o GenConsts.DFH_FLAGS_FIELD_OFFSET /\
   src_fd_length_offset m o = add32 m o GenConsts.DFH_FRAME_LENGTH_FIELD_OFFSET /\
   src_fd_term_offset_offset m o = add32 m o GenConsts.DFH_TERM_OFFSET_FIELD_OFFSET.
-Proof. repeat split. Qed.
+Proof. unfold src_fd_type_offset, src_fd_flags_offset, src_fd_length_offset, src_fd_term_offset_offset,
+    GenConsts.DFH_FRAME_LENGTH_FIELD_OFFSET, GenConsts.DFH_FLAGS_FIELD_OFFSET, GenConsts.DFH_TYPE_FIELD_OFFSET,
+    GenConsts.DFH_TERM_OFFSET_FIELD_OFFSET.
+  split; [|split; [|split]]; src_robust. Qed.
 
 (* the layout header_words of Model/LogBase.v assumes: length at 0, flags at 5, type at 6, term offset at 8 *)
 Lemma src_fd_offsets_layout m o : in_i32 (o + 8) = true -> in_i32 o = true ->
   src_fd_length_offset m o = Ok o /\ src_fd_flags_offset m o = Ok (o + 5) /\
   src_fd_type_offset m o = Ok (o + 6) /\ src_fd_term_offset_offset m o = Ok (o + 8).
-Proof. intros H H0. unfold src_fd_length_offset, src_fd_flags_offset, src_fd_type_offset, src_fd_term_offset_offset, add32,
+Proof. intros H H0. unfold src_fd_length_offset, src_fd_flags_offset, src_fd_type_offset, src_fd_term_offset_offset,
     GenConsts.DFH_FRAME_LENGTH_FIELD_OFFSET, GenConsts.DFH_FLAGS_FIELD_OFFSET, GenConsts.DFH_TYPE_FIELD_OFFSET,
     GenConsts.DFH_TERM_OFFSET_FIELD_OFFSET.
-  rewrite !chk32_ok by (unfold in_i32, two31 in *; lia). rewrite Z.add_0_r. repeat split. Qed.
+  split; [|split; [|split]]; src_robust. Qed.
 
 Lemma src_fd_check_max_frame_length_eq m len :
   src_fd_check_max_frame_length m len =
   Ok (if Z.land len 31 =? 0 then ROk 0
       else RErr "IllegalStateError::MaxFrameLengthMustBeMultipleOfFrameAlignment" [GenConsts.FRAME_ALIGNMENT; len]).
-Proof. unfold src_fd_check_max_frame_length, sub32. iconsts. rewrite chk32_ok by reflexivity. cbn [bind].
-  change (32 - 1) with 31. destruct (Z.land len 31 =? 0); reflexivity. Qed.
+Proof. unfold src_fd_check_max_frame_length. iconsts. cbv zeta. srcT_unfold_ops. rewrite chk32_ok by reflexivity. cbn [bind].
+  change (32 - 1) with 31. rewrite ?(Z.land_comm 31 len), ?(Z.eqb_sym 0 (Z.land len 31)).
+  destruct (Z.land len 31 =? 0); reflexivity. Qed.
 
 Lemma src_fd_check_header_length_eq m len :
   src_fd_check_header_length m len =
   Ok (if len =? HDR then ROk 0 else RErr "IllegalStateError::FrameHeaderLengthMustBeEqualToDataOffset" [GenConsts.DFH_LENGTH; len]).
-Proof. unfold src_fd_check_header_length. change GenConsts.DFH_LENGTH with HDR. destruct (len =? HDR); reflexivity. Qed.
+Proof. unfold src_fd_check_header_length, HDR, GenConsts.DFH_LENGTH. src_robust. Qed.
 
 (* scan_outcome packs (padding, available); available / padding unpack them *)
 Lemma src_scan_pack_roundtrip m pad av : in_i32 pad = true -> in_i32 av = true -> 0 <= av ->
